@@ -116,9 +116,14 @@ def check_spec(ctx, spec, points):
     I = ModelCSimInterface(M)
     I.py_prep_deterministic_simulation()
     derivs = []
-    for pt in points:
+    for ip, pt in enumerate(points):
         x = state_vector(M, pt["x"])
         dx = np.zeros(len(sl))
+        if ip % 2:
+            # an interface is prepared again by every deterministic simulation that is handed it: the derivative is the
+            # same function of (state, time) on every use
+            I.py_prep_deterministic_simulation()
+            ctx.count("interface_prepared_again")
         I.py_calculate_deterministic_derivative(x.copy(), dx, float(pt["t"]))
         derivs.append([float(v) for v in dx])
         rates = np.array([rate_oracle(r, pt["x"], spec["params"], pt["t"]) for r in spec["reactions"]])
